@@ -1,3 +1,4 @@
+import Model.MD5
 /-
   Model of /repo/token.go (partitioners, token order, ParseString) and of
   session.go `createRoutingKey` (composite routing key framing).
@@ -14,6 +15,9 @@ def beNat : List UInt8 → Nat
 def randomToken (digest : List UInt8) : Int :=
   let val : Int := beNat digest
   if (digest.headD 0).toNat > 127 then (val - (2:Int)^128).natAbs else val
+
+/-- token.go `randomPartitioner.Hash(partitionKey)` with `md5.Sum` = RFC 1321 (Model/MD5.lean) -/
+def randomTokenOfKey (key : List UInt8) : Int := randomToken (MD5.sum key)
 
 /-- Spec (Cassandra RandomPartitioner): `new BigInteger(md5).abs()` — the digest read as a
     signed two's-complement 128-bit integer, absolute value. -/
@@ -75,6 +79,33 @@ def natDigits (n : Nat) : List Char := natDigitsAux (n+1) n []
 /-- the decimal string Cassandra reports for a token (`Long.toString` / `BigInteger.toString`) -/
 def printInt (i : Int) : List Char :=
   if i < 0 then '-' :: natDigits i.natAbs else natDigits i.natAbs
+
+/-- `big.Int.SetString(s, 10)` on a fresh big.Int with the result flag dropped (token.go randomPartitioner.ParseString):
+    an optional sign and one or more decimal digits ↦ the number (underscores are accepted with base 0 only);
+    anything else leaves what was scanned so far — not modelled (`none`), not constrained by the property. -/
+def parseBig (cs : List Char) : Option Int :=
+  let sd := splitSign cs
+  (parseNat sd.2).map (fun n => if sd.1 then -(n : Int) else (n : Int))
+
+/-! ### which partitioner a cluster's partitioner class name selects (token.go newTokenRing) -/
+
+inductive Partitioner
+  | murmur3 | ordered | random
+  deriving DecidableEq, Repr
+
+/-- `strings.HasSuffix(s, suf)`: the last `len(suf)` bytes of `s` are `suf` (said on the reversed strings) -/
+def hasSuffix (s suf : List Char) : Bool := suf.reverse.isPrefixOf s.reverse
+
+def nameMurmur3 : List Char := ['M', 'u', 'r', 'm', 'u', 'r', '3', 'P', 'a', 'r', 't', 'i', 't', 'i', 'o', 'n', 'e', 'r']
+def nameOrdered : List Char := ['O', 'r', 'd', 'e', 'r', 'e', 'd', 'P', 'a', 'r', 't', 'i', 't', 'i', 'o', 'n', 'e', 'r']
+def nameRandom : List Char := ['R', 'a', 'n', 'd', 'o', 'm', 'P', 'a', 'r', 't', 'i', 't', 'i', 'o', 'n', 'e', 'r']
+
+/-- the `if strings.HasSuffix … else if … else error` chain of `newTokenRing`; `none` = "unsupported partitioner" -/
+def selectPartitioner (name : List Char) : Option Partitioner :=
+  if hasSuffix name nameMurmur3 then some .murmur3
+  else if hasSuffix name nameOrdered then some .ordered
+  else if hasSuffix name nameRandom then some .random
+  else none
 
 /-! ### routing key (session.go createRoutingKey) -/
 
